@@ -380,12 +380,85 @@ func ruleCurBlock(c *Ctx, r *Rep, tier string) {
 	}
 }
 
+// ruleNextBlock: with read-ahead, nextBlock leaves its receive loop (and so
+// reports a result, error included) only for the decompressor whose block base
+// is the expected one; results for other bases – e.g. a stale io.EOF queued
+// before a backward Seek – are discarded.
+func ruleNextBlock(c *Ctx, r *Rep, tier string) {
+	rule := "PATH-NEXTBLOCK"
+	fn := c.Func("bgzf", "(*Reader).nextBlock")
+	fCur := c.Field("bgzf", "Reader", "current")
+	fWork := c.Field("bgzf", "Reader", "working")
+	r.Instance(rule, 1)
+	var recv ssa.Instruction
+	allInstrs(fn, func(ins ssa.Instruction) {
+		if u, ok := ins.(*ssa.UnOp); ok && u.Op == token.ARROW {
+			if f, _ := loadedField(u.X); f == fWork {
+				recv = ins
+			}
+		}
+	})
+	if recv == nil {
+		r.Fail(rule, "bgzf.(*Reader).nextBlock#base-match", c.Pos(fn.Pos()), "no receive on working found: undecided")
+		return
+	}
+	// true edges of  current.Base() == <expected base>
+	matchEdge := func(from, to *ssa.BasicBlock) bool {
+		i := ifOf(from)
+		if i == nil {
+			return true
+		}
+		bo, ok := i.Cond.(*ssa.BinOp)
+		if !ok || (bo.Op != token.EQL && bo.Op != token.NEQ) {
+			return true
+		}
+		if !isInvokeOnField(insOf(bo.X), fCur, "Base") && !isInvokeOnField(insOf(bo.Y), fCur, "Base") {
+			return true
+		}
+		k := 0
+		if bo.Op == token.NEQ {
+			k = 1
+		}
+		return !(from.Succs[k] == to && from.Succs[1-k] != to) // block the match edge
+	}
+	// path-sensitive enumeration (the `ok` flag is a phi of constants)
+	w := NewWalker(c)
+	w.Inline = 0
+	w.Edge = func(from *ssa.BasicBlock, succ int) (string, bool) {
+		if !matchEdge(from, from.Succs[succ]) {
+			return "match", true
+		}
+		return "", false
+	}
+	var bad ssa.Instruction
+	for _, e := range w.Walk(fn, locOf(recv)) {
+		if _, isRet := e.At.(*ssa.Return); isRet && e.Counts["match"] == 0 {
+			bad = e.At
+		}
+	}
+	if w.overflow {
+		r.Fail(rule, "bgzf.(*Reader).nextBlock#base-match", c.Pos(fn.Pos()), "path budget exhausted: undecided")
+		return
+	}
+	if bad != nil {
+		r.Fail(rule, "bgzf.(*Reader).nextBlock#base-match", c.Pos(bad.Pos()), "nextBlock can return after taking a read-ahead result without its block base having matched the expected base: a result queued for another position (a stale io.EOF after a backward Seek) is reported at an unrelated block transition")
+	} else {
+		r.Pass(rule, "bgzf.(*Reader).nextBlock#base-match", c.Pos(recv.Pos()), "every return after a receive on working passes the Base() == expected edge")
+	}
+}
+
+func insOf(v ssa.Value) ssa.Instruction {
+	i, _ := v.(ssa.Instruction)
+	return i
+}
+
 func init() {
 	register(&PropDef{
 		ID: "C02", Title: "Virtual offsets address the flat stream: Seek/Read/LastChunk obey a simple model", Level: "other",
 		Rules: append([]RuleDef{
 			{Name: "PATH-LASTCHUNK", What: "Read/ReadByte: lastChunk.Begin taken after the empty-block skip and before the first consume; lastChunk.End re-taken after the last consume on every returning path (incl. Blocked mode)", Floor: 2, Run: ruleLastChunk},
 			{Name: "PATH-SEEK", What: "Seek: lastChunk = {off,off} exactly on the success edge of the in-block seek; the sticky error is re-assigned on every path", Floor: 1, Run: rulePathSeek},
+			{Name: "PATH-NEXTBLOCK", What: "nextBlock reports a read-ahead result (data or error) only for the decompressor whose base matched the expected one", Floor: 1, Run: ruleNextBlock},
 			{Name: "CUR-BLOCK", What: "block.Read/ReadByte/seek/setBase keep offset (the source of LastChunk) in step with what was consumed", Floor: 4, Run: ruleCurBlock},
 		}, readerRules("R1", "R2", "R3", "R4", "R5", "R6")...),
 		Explanation: "The bookkeeping that LastChunk and Seek rest on, decided on every path: where lastChunk.Begin/End are taken relative to block changes and consumption (PATH-LASTCHUNK), that Seek updates lastChunk only on success and clears the sticky error (PATH-SEEK), that the per-block offset advances by exactly what was consumed (CUR-BLOCK); and R1–R6 for \"every call returns\" under every read-ahead schedule (head token, decompressor wait group, hand-offs between Seek and the read-ahead goroutine).",
